@@ -203,4 +203,66 @@ def resolveGenOKB (lib : Lib) : List (String × Bool) → NNet → Bool
       | none => resolveGenOKB lib rest cur
     else resolveGenOKB lib rest cur
 
+
+/-! ### decidable hypotheses of the PROGRESS theorems `substitute_isSome` (audit finding 6): under them `substitute` returns a circuit -/
+/-- the output list of every fork is gap-free (`Line.remove()` deletes the entry of a fork instead of clearing it; on a fork with a
+    `None` entry `Line.remove()` raises: `None.driver_pin`) -/
+def forksDenseB (net : Net) : Bool :=
+  (List.range net.nodes.size).all fun j => !(net.node j).isFork || (net.node j).outs.all (·.isSome)
+
+/-- dictionary key of a (kind, name) pair -/
+def keyOfKN (kn : String × String) : String × Bool := (kn.2, kn.1 == "__fork__")
+
+/-- the keys of the nodes `substitute` adds -/
+def addedKeys (m : NNet) (hn : String) (des : Option Nat) : List (String × Bool) := (addedKN m hn des).map keyOfKN
+
+/-- **no name clash**: the nodes `substitute` adds (`<instance>~<internal name>`, forks for ports) have pairwise different keys and
+    none of them is the key of a node of the host (after the instance took the designated cell's kind, or was removed);
+    otherwise `Node(...)` raises -/
+def addFreshB (h : NNet) (c : Nat) (m : NNet) : Bool :=
+  match implShape m with
+  | none => false
+  | some sh =>
+    let ks := addedKeys m (h.names.getD c "") sh.des
+    decide ks.Nodup && ks.all fun k => !((phase1 h c m sh.des).1.keys.contains k)
+
+/-- which nodes of the implementation are in `node_map` (static) -/
+def mappedB (m : NNet) (des : Option Nat) (j : Nat) : Bool :=
+  decide (j < m.net.nodes.size) && (des == some j || (addedOne m "" des j).isSome)
+
+/-- **no `KeyError`** (static, about the implementation alone): the node that an input port's only line leads to, the fork of a
+    multi-reader input port, the fork of an output port that is read inside and the driver of every other output line are in
+    `node_map` -/
+def targetsOKB (m : NNet) : Bool :=
+  match implShape m with
+  | none => false
+  | some sh =>
+    (sh.inPorts.all fun inn =>
+      (m.net.node inn).outs.length == 0 ||
+      (if (m.net.node inn).outs.length == 1 then
+        match (m.net.node inn).outs.head? with
+        | some (some l) => mappedB m sh.des (m.net.line l).reader
+        | _ => false
+       else mappedB m sh.des inn)) &&
+    (sh.outLines.all fun l =>
+      if (m.net.node (m.net.line l).reader).outs.length > 0 then mappedB m sh.des (m.net.line l).reader
+      else mappedB m sh.des (m.net.line l).driver)
+
+/-- the two `assert`s of `substitute`: the instance has no more pins than the implementation has ports -/
+def arityOKB (h : NNet) (c : Nat) (m : NNet) : Bool :=
+  match implShape m with
+  | none => false
+  | some sh => decide ((h.net.node c).ins.length ≤ sh.inPorts.length) && decide ((h.net.node c).outs.length ≤ sh.outLines.length)
+
+/-- what is asked of an implementation circuit alone (checked for every implementation of the five built-in libraries by
+    `C10.library_impls_ok`): well-formed, `implGenOKB`, `targetsOKB`, gap-free forks, the added nodes have different keys -/
+def implSomeOKB (m : NNet) : Bool :=
+  m.wf && implGenOKB m && targetsOKB m && forksDenseB m.net &&
+  (match implShape m with | some sh => decide (addedKeys m "" sh.des).Nodup | none => false)
+
+/-- all hypotheses of `substitute_isSome` -/
+def substSomeHypB (h : NNet) (c : Nat) (m : NNet) : Bool :=
+  h.wfNoTrail && forksDenseB h.net && m.wf && decide (c < h.net.nodes.size) && !(h.net.io.contains c) && !((h.net.node c).isFork) &&
+  implGenOKB m && targetsOKB m && noSelfIgnB h c m && addFreshB h c m && arityOKB h c m
+
 end KV.Transform
